@@ -169,6 +169,12 @@ func runC12(c *fw.Case) {
 				c.Violate("recordio/"+kind+"/seq/open-failed"+feat, "%s %s: Open failed: %v", cfg, what, err)
 			}
 			_ = rd.Close()
+			if units%2 == 0 {
+				// the deferred-plus-explicit Close idiom: the second call may say "already closed", and no reader opened
+				// afterwards may be affected by it
+				_ = rd.Close()
+				c.Obs("sequential_readers_closed_twice_before_the_random_access_pass", 1)
+			}
 		}
 		// a second sequential pass that mixes SkipNext into the program (a skip returns no data, so it may succeed on a
 		// record that is cut; whatever is READ afterwards must still be a written record at its position). For cut files of
